@@ -4,7 +4,7 @@
    walkers' header parsers (written from the standards), give back exactly the arguments -
    for every width and height in 1..65535 (resp. 1..2^32-1 for JPEG 2000) and every
    component count / precision / predictor / NEAR the encoders accept. Outside that range
-   the 16-bit fields are silently truncated: header_fields_truncate_refuted. *)
+   the 16-bit fields are silently truncated: header_fields_outside_dims16. *)
 From V Require Import Common.Base Framing.FrmBase Framing.FrmJpeg Framing.FrmJls Framing.FrmJ2k
   Framing.FrmWriters Framing.FrmProofsSeg.
 
@@ -133,8 +133,10 @@ Qed.
 
 (* What the 16-bit size fields do outside 1..65535: byte(h >> 8), byte(h) drop the high bits
    without an error. Width 65536 is declared as 0 (the walker then rejects the stream),
-   width 65537 is declared as 1 (a well-formed header that lies). *)
-Theorem header_fields_truncate_refuted :
+   width 65537 is declared as 1 (a well-formed header that lies). So the range hypothesis of
+   the round-trip theorems is necessary; since e80df58 / 96ebe7f every Encode rejects such
+   sizes before a header is written (FrmProofsValidate: *_accepts_sound). *)
+Theorem header_fields_outside_dims16 :
   (exists w, 65535 < w /\ parse_sof 3 (lossless_sof3 8 1 w 1) = WBad RSofDims 0) /\
   (exists w, 65535 < w /\
      parse_sof 3 (lossless_sof3 8 1 w 1)
@@ -308,10 +310,10 @@ Proof.
   reflexivity.
 Qed.
 
-(* What writeCOD does with parameter values validateParams lets through although Table A.13-
-   A.18 cannot represent them: code-blocks 1024x1024 (xcb + ycb = 20 > 12), progression
-   order 5, 65536 layers (written as 0). The COD parser rejects each. *)
-Theorem j2k_cod_unrepresentable_refuted :
+(* What writeCOD would do with parameter values Tables A.13-A.18 cannot represent: code-blocks
+   1024x1024 (xcb + ycb = 20 > 12), progression order 5, 65536 layers (written as 0): the COD
+   parser rejects each. validateParams rejects all three since 9b2aa4a / 60ddb6e. *)
+Theorem j2k_cod_rejects_unrepresentable :
   parse_cod (j2k_cod_payload 0 1 false 5 8 8 false true) = WBad RCodSyntax 0 /\
   parse_cod (j2k_cod_payload 5 1 false 5 4 4 false true) = WBad RCodSyntax 0 /\
   parse_cod (j2k_cod_payload 0 65536 false 5 4 4 false true) = WBad RCodSyntax 0.
